@@ -266,17 +266,19 @@ func (r *yieldRewriter) rewriteStmt(
 	case *ast.SwitchStmt:
 		// ↓↓ non-trival branch ↓↓
 		// &stmt.Init maybe ptr of typed nil
-		return r.rewriteSwitchStmt(
+		following := r.rewriteSwitchStmt(
 			stmt, &stmt.Init, stmt.Tag, stmt.Body, &stmt.Switch, children,
 		)
+		return r.lastSwitch(isLast, following)
 
 	case *ast.TypeSwitchStmt:
 		// ↓↓ non-trival branch ↓↓
 		trivalAssign := r.mustNoYield(stmt.Assign)
 		r.assert(trivalAssign, stmt.Assign, "yield not allowed")
-		return r.rewriteSwitchStmt(
+		following := r.rewriteSwitchStmt(
 			stmt, &stmt.Init, stmt.Assign, stmt.Body, &stmt.Switch, children,
 		)
+		return r.lastSwitch(isLast, following)
 
 	case *ast.ForStmt:
 		// ↓↓ non-trival branch ↓↓
@@ -315,6 +317,17 @@ func (r *yieldRewriter) rewriteBlockStmt(
 ) *block {
 	following := mkBlock(kind)
 	r.rewriteStmts(body.List, 0, following)
+	return following
+}
+
+// a switch that ends a block (loop body, case body, the second half of a combine ...)
+// needs the same care as an if statement:
+// MAKE SURE EVERY BRANCH END WITH RETURN STMT
+func (r *yieldRewriter) lastSwitch(isLast bool, following *block) *block {
+	if isLast && following != nil {
+		r.generateLastNormalIfNecessary(following)
+		return nil // no following
+	}
 	return following
 }
 
